@@ -1,5 +1,5 @@
 (* C07, part 7: the unused-local diagnostics (types 4 and 17).
-   in_fragment b -> classA_ok b -> pos_clean b -> decl_locs_distinct b ->
+   in_fragment b -> pos_clean b -> decl_locs_distinct b ->
    the sweeps of the first pass report exactly (as a set) what `spec_unused` demands:
    type 4 for a declaration iff no read binds to it and it is not exempt, type 17 for the assignments to such a
    declaration. *)
@@ -133,12 +133,11 @@ Lemma SRel_nil st : SRel st [] -> st = [].
 Proof. intros H. inversion H. reflexivity. Qed.
 
 Lemma trace_run_ok b :
-  in_fragment b = true -> classA_ok b = true -> pos_clean b = true ->
+  in_fragment b = true -> pos_clean b = true ->
   stack_run (trace b) (@nil (list var)) = [] /\ log_run (trace b) (@nil (list var)) = file_occs b.
 Proof.
-  intros Hf Ha Hp. destruct usage_sim_all as [_ [_ Hb]].
-  unfold classA_ok, multi_local_order in Ha. apply negb_true_iff in Ha.
-  destruct (Hb b Hf Ha 0 0 ign0 [] [] [] []) as [seg' [H1 _]].
+  intros Hf Hp. destruct usage_sim_all as [_ [_ Hb]].
+  destruct (Hb b Hf 0 0 ign0 [] [] [] []) as [seg' [H1 _]].
   - intros n _. reflexivity.
   - intros x Hx. discriminate.
   - unfold trace, file_occs. unfold pos_clean, trace in Hp. revert Hp H1.
@@ -160,11 +159,11 @@ Proof.
 Qed.
 
 Theorem usage_unused_agree c b :
-  in_fragment b = true -> classA_ok b = true -> pos_clean b = true -> decl_locs_distinct b = true ->
+  in_fragment b = true -> pos_clean b = true -> decl_locs_distinct b = true ->
   forall x, In x (s1_diags (first_pass c b)) <-> In x (spec_unused c b).
 Proof.
-  intros Hf Ha Hp Hd x.
-  destruct (trace_run_ok b Hf Ha Hp) as [Hst Hlog].
+  intros Hf Hp Hd x.
+  destruct (trace_run_ok b Hf Hp) as [Hst Hlog].
   pose proof (trace_adds b Hf) as Hperm.
   apply nodup_locb_NoDup in Hd.
   assert (Hnd : NoDup (locs (concat (@nil (list var)) ++ adds_of (trace b)))).
@@ -199,14 +198,14 @@ Qed.
 From LH Require Import Proofs.UsageBindUndef.
 
 Theorem usage_diags_agree c b all others :
-  in_fragment b = true -> classA_ok b = true -> pos_clean b = true -> flags_ok b = true ->
+  in_fragment b = true -> pos_clean b = true -> flags_ok b = true ->
   decl_locs_distinct b = true -> later_elsewhere c b others = false ->
   (forall n, name_mem n all = name_mem n (gnames (s1_gmap (first_pass c b))) || name_mem n others) ->
   forall x, In x (go_diags c b all) <-> In x (spec_diags c b others).
 Proof.
-  intros Hf Ha Hp Hfl Hd Hle Hall x. unfold go_diags, spec_diags. rewrite !in_app_iff.
-  rewrite (usage_unused_agree c b Hf Ha Hp Hd x).
-  rewrite (usage_undefined_agree c b all others Hf Ha Hp Hfl Hle Hall). reflexivity.
+  intros Hf Hp Hfl Hd Hle Hall x. unfold go_diags, spec_diags. rewrite !in_app_iff.
+  rewrite (usage_unused_agree c b Hf Hp Hd x).
+  rewrite (usage_undefined_agree c b all others Hf Hp Hfl Hle Hall). reflexivity.
 Qed.
 
 (* ------------------------------------------------------------------ pos_clean discharged from the layout hypothesis Laid *)
@@ -214,10 +213,10 @@ From LH Require Spec.LuaScope.
 From LH Require Import Proofs.UsageBindLaid.
 
 Theorem usage_diags_agree_laid W c b all others :
-  in_fragment b = true -> classA_ok b = true -> LuaScope.laid_b W b = true -> flags_ok b = true ->
+  in_fragment b = true -> LuaScope.laid_b W b = true -> flags_ok b = true ->
   decl_locs_distinct b = true -> later_elsewhere c b others = false ->
   (forall n, name_mem n all = name_mem n (gnames (s1_gmap (first_pass c b))) || name_mem n others) ->
   forall x, In x (go_diags c b all) <-> In x (spec_diags c b others).
 Proof.
-  intros Hf Ha Hl. apply usage_diags_agree; auto. exact (usage_laid_pos_clean W b Hf Hl).
+  intros Hf Hl. apply usage_diags_agree; auto. exact (usage_laid_pos_clean W b Hf Hl).
 Qed.
